@@ -117,7 +117,18 @@ ExoticRoots == Exotics \cup { N("Sum", << x, l >>) : l \in Exotics }
                \cup { Call(l, << x >>) : l \in Exotics } \cup { B("Sub", tt, l) : l \in Exotics }
                \cup { CSE0(B("Power", l, y)) : l \in Exotics } \cup { Look(l, "p") : l \in Exotics }
 
-Roots == Over(C) \cup Pairs \cup Singles \cup ExoticRoots
+\* operands whose Python truth value is False (zero constants, a product with a zero factor,
+\* a quotient with a zero numerator, a one-term sum of zero): an analysis that tests an optional
+\* child with its truth value instead of "is not None" loses exactly these
+Falsy == { KI(0), K(FltV(0, 1)), K(BoolV(FALSE)), N("Product", << KI(0), y >>),
+           B("Quotient", KI(0), y), N("Sum", << KI(0) >>) }
+FalsyRoots == UNION { { N("Slice", << f, x, NoneE >>), N("Slice", << x, f >>), N("Slice", << NoneE, x, f >>),
+                        N("Slice", << f >>), B("Sub", tt, N("Slice", << f, x >>)),
+                        B("Sub", tt, N("Tup", << N("Slice", << NoneE, f >>), x >>)),
+                        N("Sum", << f, x >>), Call(ff, << f >>), IfE(f, x, y), CSE0(f), B("Sub", tt, f),
+                        B("Power", x, f), Look(f, "p") } : f \in Falsy }
+
+Roots == Over(C) \cup Pairs \cup Singles \cup ExoticRoots \cup FalsyRoots
 
 \* ---- Mode "rand": random deeper trees under -simulate ---------------------------
 \* Grown bottom-up (every state is a complete tree, every state of a behaviour is a
